@@ -1,9 +1,11 @@
 ----------------------------- MODULE MwChainGen -----------------------------
-(* Generator: every middleware list / base handler / nesting of MwChain with *)
-(* the visit log, Server header values and response the specification        *)
-(* predicts.  Only complete runs are emitted.                                *)
+(* Generator: every middleware list / base handler / nesting / spare         *)
+(* capacity of MwChain with the visit log, Server header values and response *)
+(* the specification predicts for EVERY round over the same array.  Emitted  *)
+(* once per run, at the end of the last round.                               *)
 EXTENDS MwChain, Json, CSV, TLCExt
 
-Vector == [mws |-> mws, hk |-> hk, split |-> split, visits |-> visits, server |-> server, resp |-> resp]
-Emit == phase = "done" => CSVWrite("%1$s", <<ToJson(Vector)>>, "mwchain_vectors.ndjson")
+Vector == [mws |-> mws, hk |-> hk, k |-> k, j |-> j, spare |-> Len(arr) - N, rounds |-> Rounds,
+           visits |-> visits, server |-> server, resp |-> resp]
+Emit == (phase = "done" /\ round = Rounds) => CSVWrite("%1$s", <<ToJson(Vector)>>, "mwchain_vectors.ndjson")
 =============================================================================
